@@ -93,11 +93,15 @@ func (d *dtInfo) zero() interface{} { return reflect.Zero(d.dt.Type).Interface()
 var specialF = []float64{0, math.Copysign(0, -1), 1, -1, 2.5, -7, 1e30, -1e30, math.Inf(1), math.Inf(-1), math.NaN(), 5e-324, 3, 0.5, 100, -0.25}
 var specialI = []int64{0, 1, -1, 2, -7, 127, -128, 255, 32767, -32768, 65535, math.MaxInt32, math.MinInt32, math.MaxInt64, math.MinInt64, 3, 5, -3, 100, 7}
 
+// strings a text format may trip over: a leading '#' (comment character of many readers), separators, quotes, non-ASCII
+var specialS = []string{"#hash", "s1", "#", "x#y", "a b", "ünï", "q\"uote", "c,omma", "semi;colon", "7", "-1.5", "#2 3", "tab\there"}
+
 // genVal is the deterministic content of cell i of buffer buf under value set vset.
 //   vset 0: distinct small values 1+i+37*buf (data movement)
 //   vset 1: special values (overflow, negative, zero, non-finite), cycling
 //   vset 2: small positive integers 1..9 (exact in every numeric type)
 //   vset 3: small values with ties and negatives  (-2..2)
+//   vset 4: floats around 1 at distances 2^-20 and 2^-10 (tolerance tests); other types as vset 0
 func (d *dtInfo) genVal(vset, buf, i int) interface{} {
 	switch vset {
 	case 1:
@@ -118,11 +122,23 @@ func (d *dtInfo) genVal(vset, buf, i int) interface{} {
 		case "int", "uint":
 			return d.fromInt(specialI[(i+5*buf)%len(specialI)])
 		}
+		if d.name == "str" {
+			return specialS[(i+3*buf)%len(specialS)]
+		}
 		return d.fromInt(int64(1 + i + 37*buf))
 	case 2:
 		return d.fromInt(int64(1 + (i*7+buf*3)%9))
 	case 3:
 		return d.fromInt(int64((i*3+buf)%5 - 2))
+	case 4: // floats: a reference value and its neighbours at distance 2^-20 (exact in float32) - tolerances
+		if d.kind == "float" {
+			f := []float64{1, 1 + 1.0/(1<<20), 1 - 1.0/(1<<20), 2, 1, 0.5, 1 + 1.0/(1<<10), 3}[(i+buf)%8]
+			if d.bits == 32 {
+				return float32(f)
+			}
+			return f
+		}
+		return d.fromInt(int64(1 + i + 37*buf))
 	}
 	return d.fromInt(int64(1 + i + 37*buf))
 }
